@@ -13,8 +13,10 @@ class Transc (α : Type) where
   pi : α
   /-- `float(n)` for a Python int -/
   ofNat : Nat → α
+  /-- `x == 0` (used by guards such as `A[c].any()`, `nij > 0`) -/
+  isZero : α → Bool
 
-instance : Transc Float := ⟨Float.exp, Float.log, Float.sqrt, 3.141592653589793, Float.ofNat⟩
+instance : Transc Float := ⟨Float.exp, Float.log, Float.sqrt, 3.141592653589793, Float.ofNat, fun x => x == 0⟩
 
 /-- External linear-algebra routine `np.linalg.inv` / `scipy.linalg.inv` (the Cholesky factor used by
 WCCN/whitening is an explicit parameter of those models, see `Model/Linear.lean`). -/
